@@ -1569,8 +1569,8 @@ def run(chk, ctx):
         else: chk.k_bad('from_phi_inbreeding:refusal', small(c), r['err'], out[:60], None)
     l3_inbreeding_limit(chk, ctx, rng, 6 if q else 40)
     # ---- populations listed in any order; call history
-    l3_marginalize_orders(chk, ctx, rng, 1 if q else 6)
-    l3_sessions(chk, ctx, rng, 1 if q else 5)
+    l3_sessions(chk, ctx, rng, 2 if q else 8)
+    l3_marginalize_orders(chk, ctx, rng, 2 if q else 8)
     k_bbconv(chk, ctx, rng, 30 if q else 250)
     k_spec_vs_fast(chk, ctx, rng, 12 if q else 48)
     chk.notes.append('from_phi(5-D) with force_direct / het_ascertained / admix_props fails with UnboundLocalError (no 5-D direct path exists; no branch assigns `fs`): '
